@@ -466,6 +466,16 @@ func (e *Engine) callStatic(fn *ssa.Function, args []Value, bind []Value, pos to
 		e.stubs[name]++
 		return in(e, args, pos, fn)
 	}
+	if mn, ok := modelOf[name]; ok {
+		// environment-facing function with a Go MODEL in the harness library (evaluated symbolically in its place; the
+		// native replay runs the real function against fakes that realise the same answers)
+		if pk := e.prog.ImportedPackage(e.repoPkgPrefix); pk != nil {
+			if m := pk.Func(mn); m != nil {
+				e.stubs[name+" -> "+mn]++
+				return e.CallFunction(m, args, nil)
+			}
+		}
+	}
 	if strings.HasPrefix(fn.Name(), "vp") && len(fn.Name()) > 2 && fn.Name()[2] >= 'A' && fn.Name()[2] <= 'Z' {
 		nm := fn.Name()
 		if i := strings.Index(nm, "["); i > 0 {
@@ -738,3 +748,10 @@ func (e *Engine) firePending(i int) {
 }
 
 func (e *Engine) String() string { return fmt.Sprintf("engine(%s)", e.harness) }
+
+
+// modelOf: repo functions that face the environment (address parsing of live connections) and are replaced by a model
+// function of the harness library when that library defines one.
+var modelOf = map[string]string{
+	"(*github.com/libp2p/go-libp2p-pubsub.peerScore).getIPs": "vpModel_getIPs",
+}
